@@ -1,4 +1,322 @@
 package main
 
-func cmdCheck(args []string)  {}
-func cmdFreeze(args []string) {}
+// The registered checks: `govc check -property Cxx -tier quick|thorough`.
+
+import (
+	"encoding/json"
+	"flag"
+	"fmt"
+	"os"
+	"path/filepath"
+	"sort"
+	"strings"
+	"time"
+)
+
+type KnownFinding struct {
+	Property   string `json:"property"`
+	Obligation string `json:"obligation"`
+	Status     string `json:"status"` // "finding" or "fixed"
+	What       string `json:"what"`
+	History    string `json:"history,omitempty"`
+	Commit     string `json:"commit,omitempty"`
+	Line       string `json:"line,omitempty"`
+}
+
+type Evidence struct {
+	PropertyID  string                 `json:"property_id"`
+	Tier        string                 `json:"tier"`
+	Seed        int                    `json:"seed"`
+	Level       string                 `json:"level"`
+	Coverage    map[string]interface{} `json:"coverage"`
+	Assumptions []string               `json:"assumptions"`
+	WallS       float64                `json:"wall_s"`
+	Violations  int                    `json:"violations"`
+}
+
+func loadKnown(vdir string) []KnownFinding {
+	var k struct {
+		Findings []KnownFinding `json:"findings"`
+	}
+	b, err := os.ReadFile(filepath.Join(vdir, "known_findings.json"))
+	if err != nil {
+		return nil
+	}
+	if err := json.Unmarshal(b, &k); err != nil {
+		fmt.Fprintln(os.Stderr, "known_findings.json:", err)
+		os.Exit(2)
+	}
+	return k.Findings
+}
+
+func loadExpected(vdir string) map[string][]string {
+	m := map[string][]string{}
+	b, err := os.ReadFile(filepath.Join(vdir, "obligations.expected.json"))
+	if err != nil {
+		return m
+	}
+	if err := json.Unmarshal(b, &m); err != nil {
+		fmt.Fprintln(os.Stderr, "obligations.expected.json:", err)
+		os.Exit(2)
+	}
+	return m
+}
+
+var trustedBase = []string{
+	"GoVC itself (go/ssa naive-form SSA -> SMT-LIB translation written for this task), go/types, go/ssa of golang.org/x/tools v0.29.0",
+	"SMT solvers z3 5.1.0, cvc5 1.0.3, z3 4.8.12 (an obligation counts as discharged when one of them answers unsat)",
+	"machine model: int/uint/uintptr are 64 bit, Go integer arithmetic is exact modular bit-vector arithmetic; 32-bit targets are not covered",
+	"assumed contracts of dependencies in /verif/stdlib/*.spec (listed under assumed_contracts when used)",
+	"interface contracts of fs.File / fs.FileSystem / fs.LockFile in /repo/fs/verif_contracts.go are the model of the file system (sizes below 2^48, I/O errors possible on every call)",
+	"bufio.Reader is modelled as an unbuffered second handle on the same file",
+	"floating-point expressions are abstracted to unconstrained values",
+}
+
+func cmdCheck(args []string) {
+	fs := flag.NewFlagSet("check", flag.ExitOnError)
+	repo := fs.String("repo", "/repo", "")
+	vdir := fs.String("verif", "/verif", "")
+	prop := fs.String("property", "", "property id")
+	tier := fs.String("tier", "quick", "quick|thorough")
+	fs.Parse(args)
+	if t := os.Getenv("VERIF_TIER"); t == "quick" || t == "thorough" {
+		*tier = t
+	}
+	if *prop == "" {
+		fmt.Fprintln(os.Stderr, "check: -property required")
+		os.Exit(2)
+	}
+	seed := envInt("VERIF_SEED", 0)
+	t0 := time.Now()
+	c, err := loadAll(*repo, *vdir)
+	if err != nil {
+		// the tree does not load (does not compile, or a contract file is malformed): the check cannot run
+		fmt.Fprintln(os.Stderr, "govc: cannot load:", err)
+		os.Exit(2)
+	}
+	loadS := time.Since(t0).Seconds()
+	timeout := 10
+	if *tier == "thorough" {
+		timeout = 60
+	}
+	solver := NewSolver(filepath.Join(*vdir, ".work", *prop), filepath.Join(*vdir, ".cache"), timeout, seed)
+	defer os.RemoveAll(filepath.Join(*vdir, ".work", *prop))
+	rr := verify(c, func(ct *Contract) bool { return contractMentions(ct, *prop) },
+		func(name string, tags []string) bool { return hasTag(tags, *prop) }, solver, false)
+
+	known := loadKnown(*vdir)
+	expected := loadExpected(*vdir)[*prop]
+	isKnown := func(name string) *KnownFinding {
+		for i := range known {
+			if known[i].Property == *prop && known[i].Obligation == name && known[i].Status == "finding" {
+				return &known[i]
+			}
+		}
+		return nil
+	}
+	type violation struct {
+		name, why, detail string
+		r              *OblResult
+	}
+	var viols []violation
+	var knownHit []string
+	seen := map[string]bool{}
+	nObl, nDis, nCover, nCoverOK := 0, 0, 0, 0
+	var samples []interface{}
+	var slowest float64
+	for _, r := range rr.Results {
+		seen[r.Name] = true
+		if r.Cover {
+			nCover++
+			if r.Status == "cover-ok" {
+				nCoverOK++
+			} else {
+				viols = append(viols, violation{r.Name, "vacuous: a precondition or path condition became contradictory", r.Detail, r})
+			}
+			continue
+		}
+		ok := r.Status == "discharged"
+		if !ok {
+			if kf := isKnown(r.Name); kf != nil {
+				knownHit = append(knownHit, fmt.Sprintf("KNOWN-FINDING: property=%s %s: %s", *prop, r.Name, kf.What))
+				continue
+			}
+			viols = append(viols, violation{r.Name, r.Status, r.Detail, r})
+		}
+		nObl++
+		if ok {
+			nDis++
+		}
+		if r.Seconds > slowest {
+			slowest = r.Seconds
+		}
+		if len(samples) < 12 {
+			samples = append(samples, map[string]interface{}{"obligation": r.Name, "status": r.Status, "paths": r.Paths, "solver": r.Solver, "solver_s": round2(r.Seconds), "query_bytes": r.QueryLen, "clause": r.Src, "where": r.Where})
+		}
+	}
+	for _, n := range expected {
+		if !seen[n] {
+			if isKnown(n) != nil {
+				continue
+			}
+			nObl++
+			viols = append(viols, violation{n, "missing", "an obligation that is part of the claim was not generated (function removed, renamed, or out of the supported subset)", nil})
+		}
+	}
+	var pk []string
+	for k := range rr.Problems {
+		pk = append(pk, k)
+	}
+	sort.Strings(pk)
+	var outOfSubset []string
+	for _, k := range pk {
+		for _, p := range rr.Problems[k] {
+			outOfSubset = append(outOfSubset, shortKey(c, k)+": "+p)
+			nObl++
+			viols = append(viols, violation{shortKey(c, k) + "#verifiable", "not verifiable", p, nil})
+		}
+	}
+	// a stale known finding (obligation discharges again or no longer exists) is not an error, but is shown
+	for _, kf := range known {
+		if kf.Property == *prop && kf.Status == "finding" {
+			hit := false
+			for _, l := range knownHit {
+				if strings.Contains(l, kf.Obligation+":") {
+					hit = true
+				}
+			}
+			if !hit {
+				fmt.Printf("NOTE: known finding %s did not occur in this run\n", kf.Obligation)
+			}
+		}
+	}
+	for _, l := range knownHit {
+		fmt.Println(l)
+	}
+	replayDir := filepath.Join(*vdir, "replays", *prop)
+	if len(viols) > 0 {
+		os.MkdirAll(replayDir, 0755)
+	}
+	for _, v := range viols {
+		rp := filepath.Join(replayDir, sanitize(v.name)+".json")
+		rec := map[string]interface{}{"property": *prop, "obligation": v.name, "status": v.why, "detail": v.detail}
+		reproduced := false
+		if v.r != nil {
+			rec["clause"] = v.r.Src
+			rec["where"] = v.r.Where
+			rec["solver_output"] = v.r.Output
+			rec["model"] = v.r.Model
+			qf := filepath.Join(replayDir, sanitize(v.name)+".smt2")
+			os.WriteFile(qf, []byte(v.r.Query+"(check-sat)\n(get-model)\n"), 0644)
+			rec["query_file"] = qf
+			if v.r.Model != "" {
+				if out, ok := tryReplay(c, *vdir, *prop, v.r); out != "" {
+					rec["replay"] = out
+					reproduced = ok
+				}
+			}
+		}
+		rec["reproduced_on_real_code"] = reproduced
+		b, _ := json.MarshalIndent(rec, "", " ")
+		os.WriteFile(rp, b, 0644)
+		suffix := " no-failing-input-found"
+		if reproduced {
+			suffix = ""
+		}
+		fmt.Printf("VIOLATION property=%s replay=%s obligation=%s status=%s%s\n", *prop, rp, v.name, v.why, suffix)
+	}
+	var assumed []string
+	for k := range rr.Assumed {
+		assumed = append(assumed, k)
+	}
+	sort.Strings(assumed)
+	solverS := map[string]float64{}
+	for k, v := range solver.SolverS {
+		solverS[k] = round2(v)
+	}
+	ev := Evidence{PropertyID: *prop, Tier: *tier, Seed: seed, Level: "proof", WallS: round2(time.Since(t0).Seconds()), Violations: len(viols)}
+	ev.Coverage = map[string]interface{}{
+		"obligations":              nObl,
+		"discharged":               nDis,
+		"checker_cmd":              fmt.Sprintf("bin/govc check -property %s -tier %s", *prop, *tier),
+		"trusted_base":             trustedBase,
+		"samples":                  samples,
+		"functions_under_contract": rr.Funcs,
+		"paths_explored":           rr.NumPaths,
+		"reachability_guards":      map[string]int{"generated": nCover, "reachable": nCoverOK},
+		"solver_wins":              solver.Wins,
+		"solver_seconds":           solverS,
+		"solver_calls":             solver.Calls,
+		"solver_cache_hits":        solver.Hits,
+		"slowest_obligation_s":     round2(slowest),
+		"assumed_contracts":        assumed,
+		"out_of_subset":            outOfSubset,
+		"known_findings":           knownHit,
+		"load_s":                   round2(loadS),
+		"generate_s":               round2(rr.GenS),
+		"solve_wall_s":             round2(rr.SolveS),
+		"integer_semantics":        "64-bit and narrower bit-vectors (exact Go wrap-around); no mathematical integers for program values",
+	}
+	for _, a := range assumed {
+		ev.Assumptions = append(ev.Assumptions, a+": "+rr.Assumed[a])
+	}
+	ev.Assumptions = append(ev.Assumptions, propertyAssumptions[*prop]...)
+	os.MkdirAll(filepath.Join(*vdir, "evidence"), 0755)
+	b, _ := json.MarshalIndent(ev, "", " ")
+	os.WriteFile(filepath.Join(*vdir, "evidence", *prop+".json"), b, 0644)
+	fmt.Printf("%s: %d obligations, %d discharged, %d known findings, %d violations (%d functions, %.1fs)\n", *prop, nObl, nDis, len(knownHit), len(viols), len(rr.Funcs), time.Since(t0).Seconds())
+	if len(viols) > 0 {
+		os.Exit(1)
+	}
+	if nObl == 0 {
+		fmt.Println("no obligations generated: the check is vacuous")
+		os.Exit(2)
+	}
+}
+
+func round2(f float64) float64 { return float64(int(f*100+0.5)) / 100 }
+
+// per-property statements of what the obligations do not cover (kept next to the claim)
+var propertyAssumptions = map[string][]string{}
+
+// cmdFreeze records the names of the obligations that discharge on the current tree.
+func cmdFreeze(args []string) {
+	fs := flag.NewFlagSet("freeze", flag.ExitOnError)
+	repo := fs.String("repo", "/repo", "")
+	vdir := fs.String("verif", "/verif", "")
+	props := fs.String("properties", "", "comma separated property ids")
+	fs.Parse(args)
+	c, err := loadAll(*repo, *vdir)
+	if err != nil {
+		fmt.Fprintln(os.Stderr, err)
+		os.Exit(2)
+	}
+	out := loadExpected(*vdir)
+	for _, p := range strings.Split(*props, ",") {
+		p = strings.TrimSpace(p)
+		if p == "" {
+			continue
+		}
+		solver := NewSolver(filepath.Join(*vdir, ".work", "freeze"), filepath.Join(*vdir, ".cache"), 10, 0)
+		rr := verify(c, func(ct *Contract) bool { return contractMentions(ct, p) },
+			func(name string, tags []string) bool { return hasTag(tags, p) }, solver, false)
+		var names []string
+		for _, r := range rr.Results {
+			if r.Cover {
+				continue
+			}
+			names = append(names, r.Name)
+		}
+		sort.Strings(names)
+		out[p] = names
+		fmt.Printf("%s: %d obligations frozen\n", p, len(names))
+	}
+	os.RemoveAll(filepath.Join(*vdir, ".work", "freeze"))
+	b, _ := json.MarshalIndent(out, "", " ")
+	os.WriteFile(filepath.Join(*vdir, "obligations.expected.json"), b, 0644)
+}
+
+// tryReplay turns a solver model into an execution of the real function where a replay driver exists.
+func tryReplay(c *Ctx, vdir, prop string, r *OblResult) (string, bool) {
+	return "", false
+}
